@@ -20,9 +20,14 @@ BOUNDARY_N = [49, 98, 103, 107, 161, 187, 196, 197]
 
 STATS = ["tacount", "tafreq", "acount", "afreq", "afixed", "apoly", "maf", "meh", "gtcount", "gtfreq"]
 FMTS = [("f012", "{0,1,2}"), ("fM101", "{-1,0,1}"), ("fM1m1", "{-1,m,1}")]
-COUNT_DT = [None, None, "int64", "int32", "int16", "float64", "float32", "py:int", "py:float"]
-FREQ_DT = [None, None, "float64", "float32", "float16", "py:float"]
-FLAG_DT = [None, None, "bool", "int64", "int8", "float64", "float32", "py:int", "py:float"]
+# dtype arguments: names, python types ("py:"), numpy scalar classes ("np:"), numpy.dtype objects ("dt:").  Frequencies may
+# be requested in INTEGER dtypes as well: numpy then truncates the float64 result toward zero (modelled: Genotype.truncRat)
+COUNT_DT = [None, None, "int64", "int32", "int16", "float64", "float32", "py:int", "py:float", "uint16", "np:int64",
+            "dt:int32", "uint32"]
+FREQ_DT = [None, None, "float64", "float32", "float16", "py:float", "np:float32", "dt:float64",
+           "int64", "int8", "py:int", "uint8", "dt:int16"]
+FLAG_DT = [None, None, "bool", "int64", "int8", "float64", "float32", "py:int", "py:float", "py:bool", "uint8", "np:int16"]
+LAYOUTS = ["C", "C", "C", "F", "strided", "rev", "T"]
 KIND_OF = {"tacount": "count", "acount": "count", "gtcount": "count", "tafreq": "freq", "afreq": "freq",
            "maf": "freq", "meh": "freq", "gtfreq": "freq", "afixed": "flag", "apoly": "flag"}
 NATIVE = {"tacount": "int64", "acount": "int64", "gtcount": "int64", "tafreq": "float64", "afreq": "float64",
@@ -42,10 +47,12 @@ def _dt(name):
     """case dtype tag -> the object handed to the method"""
     if name is None:
         return None
-    if name == "py:int":
-        return int
-    if name == "py:float":
-        return float
+    if name.startswith("py:"):
+        return {"int": int, "float": float, "bool": bool}[name[3:]]
+    if name.startswith("np:"):
+        return getattr(numpy, name[3:])
+    if name.startswith("dt:"):
+        return numpy.dtype(name[3:])
     return name
 
 
@@ -53,11 +60,36 @@ def _dtname(name, stat):
     """numpy dtype name the result must have"""
     if name is None:
         return NATIVE[stat]
-    return {"py:int": "int64", "py:float": "float64"}.get(name, name)
+    if name.startswith("py:"):
+        return {"int": "int64", "float": "float64", "bool": "bool"}[name[3:]]
+    if name[:3] in ("np:", "dt:"):
+        return name[3:]
+    return name
 
 
-def _tol(case, stat):
-    return TOL.get(_dtname(case["dtypes"].get(stat), stat), TOL["float64"])
+def _is_int(name, stat):
+    return numpy.issubdtype(numpy.dtype(_dtname(name, stat)), numpy.integer)
+
+
+def _layout(a, how):
+    """the same int8 values in another memory layout (the constructor accepts any int8 ndarray)"""
+    a = numpy.ascontiguousarray(a, dtype="int8")
+    if how == "F":
+        return numpy.asfortranarray(a)
+    if how == "strided":                 # every second element of a larger buffer along the last axis
+        big = numpy.full(a.shape[:-1] + (2 * a.shape[-1],), 7, dtype="int8")
+        v = big[..., ::2]
+        v[...] = a
+        return v
+    if how == "rev":                     # negative strides
+        return numpy.ascontiguousarray(a[..., ::-1])[..., ::-1]
+    if how == "T":                       # transposed view of a C array of the transposed shape
+        return numpy.ascontiguousarray(a.T).T
+    return a
+
+
+def _tol(dtypes, stat):
+    return TOL.get(_dtname(dtypes.get(stat), stat), TOL["float64"])
 
 
 def _flags(a):
@@ -70,27 +102,47 @@ def _flags(a):
     return [bool(x != 0) for x in a]
 
 
+HIST_INPLACE = ["edit", "editcol", "setmat", "remove_taxa", "append_taxa", "incorp_taxa", "reorder_taxa", "remove_vrnt",
+                "requery"]
+HIST_DERIVE = ["select_taxa", "delete_taxa", "insert_taxa", "adjoin_taxa", "concat_self", "copy", "deepcopy",
+               "select_vrnt", "delete_vrnt", "project", "hdf5"]
+
+
 class C09(Prop):
     PID = "C09"
     MODULE = "PybropsModel.Props.C09"
     N_QUICK = 110
-    N_THOROUGH = 4000
+    N_THOROUGH = 2500
     RULE = ("phased matrices (1-4 phases, binary alleles) and unphased dosage matrices (ploidy 1,2,3,4,6) of "
             "1-12 taxa or one of the boundary sizes 49, 98, 103, 107, 161, 187, 196, 197 (each boundary size at "
             "least once per run, with a locus fixed at 1 and one fixed at 0), 1-5 loci drawn from the patterns "
-            "fixed-1 / fixed-0 / one-copy-off / exactly-one-half / all-heterozygous / random; a sweep over every size 1..400 and over "
+            "fixed-1 / fixed-0 / one-copy-off / exactly-one-half / all-heterozygous / random, and whole-matrix shapes "
+            "(no taxon homozygous for allele 1 anywhere, all-zero, one heterozygous taxon); arrays handed over C-ordered, "
+            "Fortran-ordered, as strided / negative-stride / transposed views; optional metadata absent or present with "
+            "the variants NOT stored in (chromosome, position) order; a sweep over every size 1..400 and over "
             "very large populations (50000..200001 diploid, 100001 haploid, 25000/30001 tetraploid) one copy off "
-            "fixation; every statistic "
-            "called with a dtype drawn from its admissible list; the phased matrix is also projected through "
-            "DenseUnphasedGenotyping and both objects are queried.  Non-trivial = at least 2 taxa, a fixed and a "
+            "fixation (frequencies, flags, counts); every statistic "
+            "called with a dtype drawn from its admissible list - names, python types, numpy classes, numpy.dtype objects; "
+            "floating AND integer dtypes for the frequencies; the phased matrix is also projected through "
+            "DenseUnphasedGenotyping and both objects are queried.  history: ONE object taken through 2-5 steps - in-place "
+            "element edits of the same array, re-assignment of `mat`, remove/append/incorp/reorder taxa, remove variants, "
+            "copy-on-manipulation (select/delete/insert/adjoin/concat taxa, select/delete variants, copy, deepcopy, "
+            "projection, HDF5 round trip) with indices as lists, narrow-dtype arrays, negative numbers, slices or scalars - and after EVERY "
+            "step all statistics are queried twice in different orders (the arrays returned by the first round are "
+            "overwritten in between) and judged against the raw calls the object holds at that moment; objects left "
+            "behind by copy-on-manipulation are re-queried at the end.  Non-trivial = at least 2 taxa, a fixed and a "
             "polymorphic locus in the same matrix")
     TRUSTED = ["numpy integer sums and one correctly rounded IEEE division per frequency (modelled by "
                "Binary64.roundBinary64, proved to satisfy RoundingContract, and compared bit for bit with the float64 "
                "outputs afreq/tafreq/gtfreq/maf in every case)",
-               "casts between numpy dtypes (float64 -> float32/float16 is monotone and fixes 0 and 1)"]
+               "casts between numpy dtypes (float64 -> float32/float16 rounds to nearest-even: BinaryFloat.roundBin 23/10, "
+               "proved to satisfy RoundingContract and compared bit for bit; float64 -> integer truncates toward zero: "
+               "Genotype.truncRat, compared exactly)"]
     ASSUMPTIONS = ["raw calls are valid: binary alleles (phased), dosages in 0..ploidy (unphased), >= 1 taxon, >= 1 locus",
-                   "requested integer dtypes can hold the counts (no int8 accumulator for counts above 127); "
-                   "frequencies are requested in floating dtypes only",
+                   "requested integer dtypes can hold the counts (no int8 accumulator for counts above 127)",
+                   "a frequency requested in an INTEGER dtype is the truncation of the textbook value (0 unless the locus "
+                   "is fixed at 1): the `= 0 iff no copy carries 1` half of the boundary clause cannot hold in such a "
+                   "dtype and is not demanded there (the `= 1` half is)",
                    "a requested floating dtype can resolve 1/(ploidy*ntaxa): at most 2^11 copies for float16, 2^24 "
                    "for float32 (generated populations have at most 1182 copies); beyond that no value of that dtype "
                    "can separate (m-1)/m from 1 (C09.rounded_exact_full_statement_counterexample)",
@@ -124,30 +176,58 @@ class C09(Prop):
                 rng.shuffle(c)
                 out.append(c)
             return out
+        if pat == "notop":          # nobody is homozygous for allele 1 (at least one copy of allele 0 in every taxon)
+            out = []
+            for _ in range(n):
+                c = [1 if rng.random() < 0.6 else 0 for _ in range(k)]
+                c[rng.randrange(k)] = 0
+                out.append(c)
+            return out
         pr = rng.choice([0.1, 0.5, 0.5, 0.9])
         return [[1 if rng.random() < pr else 0 for _ in range(k)] for _ in range(n)]
 
-    def _dtypes(self, rng, maxcount):
+    def _dtypes(self, rng, maxcount, plain=False):
         d = {}
         for s in STATS:
             kind = KIND_OF[s]
             pool = {"count": COUNT_DT, "freq": FREQ_DT, "flag": FLAG_DT}[kind]
-            if kind == "count" and maxcount <= 127 and rng.random() < 0.15:
+            if plain:
+                d[s] = None
+            elif kind == "count" and maxcount <= 127 and rng.random() < 0.15:
                 d[s] = "int8"
             else:
                 d[s] = rng.choice(pool)
+                if kind == "count" and d[s] in ("uint16", "int16") and maxcount > 30000:
+                    d[s] = "int64"
         return d
 
-    def _case(self, rng, n, phased, k, pats):
+    @staticmethod
+    def _meta(rng, nt, nv):
+        """optional metadata, deliberately unordered: chromosome 3 stored before chromosome 1, positions not ascending"""
+        chrgrp = [rng.choice([3, 1, 2]) for _ in range(nv)]
+        if nv >= 2 and chrgrp == sorted(chrgrp):
+            chrgrp[0], chrgrp[-1] = 3, 1
+        return {"taxa": [f"t{(7 * i + 3) % (nt + 5)}_{i}" for i in range(nt)],
+                "taxa_grp": [rng.choice([5, 2, 9]) for _ in range(nt)],
+                "vrnt_chrgrp": chrgrp, "vrnt_phypos": rng.sample(range(1, 10000), nv),
+                "vrnt_name": [f"m{(5 * j + 2) % (nv + 3)}_{j}" for j in range(nv)],
+                "vrnt_mask": [rng.random() < 0.6 for _ in range(nv)]}
+
+    def _case(self, rng, n, phased, k, pats, plain=False):
         loci = [self._locus(rng, n, k, p) for p in pats]       # [locus][taxon][copy]
         nv = len(pats)
         if phased:
             mat = [[[loci[j][i][c] for j in range(nv)] for i in range(n)] for c in range(k)]
-            return {"kind": "phased", "nt": n, "nv": nv, "ploidy": k, "mat": mat,
-                    "dtypes": self._dtypes(rng, k * n)}
-        mat = [[sum(loci[j][i]) for j in range(nv)] for i in range(n)]
-        return {"kind": "unphased", "nt": n, "nv": nv, "ploidy": k, "mat": mat,
-                "dtypes": self._dtypes(rng, k * n)}
+        else:
+            mat = [[sum(loci[j][i]) for j in range(nv)] for i in range(n)]
+        c = {"kind": "phased" if phased else "unphased", "nt": n, "nv": nv, "ploidy": k, "mat": mat,
+             "dtypes": self._dtypes(rng, k * n, plain)}
+        if not plain:
+            c["layout"] = rng.choice(LAYOUTS)
+            if rng.random() < 0.35:
+                c["meta"] = self._meta(rng, n, nv)
+            c["oseed"] = rng.randrange(1 << 30)
+        return c
 
     def corpus(self):
         nod = {s: None for s in STATS}
@@ -171,12 +251,61 @@ class C09(Prop):
         # D2 regression: a diploid unphased matrix must report three genotype classes
         out.append({"kind": "unphased", "nt": 4, "nv": 2, "ploidy": 2, "dtypes": dict(nod),
                     "mat": [[0, 2], [1, 2], [2, 2], [2, 0]]})
+        # whole-matrix shapes: nobody homozygous for allele 1 anywhere (F1 / testcross), an all-zero population, one
+        # heterozygous taxon (unphased and phased, several ploidies): ploidy+1 classes all the same
+        out.append({"kind": "unphased", "nt": 4, "nv": 3, "ploidy": 2, "dtypes": dict(nod),
+                    "mat": [[1, 0, 1], [1, 1, 0], [0, 1, 1], [1, 1, 1]]})
+        out.append({"kind": "unphased", "nt": 3, "nv": 2, "ploidy": 4, "dtypes": dict(nod), "mat": [[0, 0], [0, 0], [0, 0]]})
+        out.append({"kind": "unphased", "nt": 5, "nv": 2, "ploidy": 6, "dtypes": dict(nod),
+                    "mat": [[3, 0], [5, 1], [2, 2], [0, 4], [1, 3]]})
+        out.append({"kind": "unphased", "nt": 1, "nv": 3, "ploidy": 2, "dtypes": dict(nod), "mat": [[1, 2, 0]]})
+        out.append({"kind": "unphased", "nt": 1, "nv": 2, "ploidy": 4, "dtypes": dict(nod), "mat": [[3, 1]]})
+        out.append({"kind": "phased", "nt": 1, "nv": 3, "ploidy": 4, "dtypes": dict(nod),
+                    "mat": [[[1, 0, 1]], [[0, 0, 1]], [[1, 0, 1]], [[1, 1, 1]]]})
+        out.append({"kind": "phased", "nt": 3, "nv": 2, "ploidy": 3, "dtypes": dict(nod),
+                    "mat": [[[1, 0], [0, 0], [1, 0]], [[0, 0], [0, 1], [0, 0]], [[0, 1], [0, 0], [0, 0]]]})
+        # every statistic in an integer dtype (truncation) and through numpy classes / dtype objects
+        ints = {"tacount": "np:int64", "tafreq": "int64", "acount": "dt:int32", "afreq": "int8", "afixed": "uint8",
+                "apoly": "py:bool", "maf": "int64", "meh": "py:int", "gtcount": "uint32", "gtfreq": "int8"}
+        out.append({"kind": "unphased", "nt": 49, "nv": 4, "ploidy": 2, "dtypes": dict(ints),
+                    "mat": [[2, 0, i % 3, 2 - (i == 7)] for i in range(49)]})
+        out.append({"kind": "phased", "nt": 3, "nv": 3, "ploidy": 4, "dtypes": dict(ints), "layout": "F",
+                    "mat": [[[1, 0, 1], [1, 0, 0], [1, 0, 1]], [[1, 0, 1], [1, 0, 1], [1, 0, 0]],
+                            [[1, 0, 1], [1, 0, 0], [1, 0, 0]], [[1, 0, 0], [1, 0, 1], [1, 0, 1]]]})
+        # variants stored chromosome 3 before chromosome 1: the projection must keep the variant order
+        out.append({"kind": "phased", "nt": 3, "nv": 4, "ploidy": 2, "dtypes": dict(nod), "layout": "strided",
+                    "meta": {"taxa": ["c", "a", "b"], "taxa_grp": [2, 1, 2], "vrnt_chrgrp": [3, 3, 1, 2],
+                             "vrnt_phypos": [50, 10, 70, 20], "vrnt_name": ["w", "x", "y", "z"],
+                             "vrnt_mask": [True, False, True, False]},
+                    "mat": [[[1, 0, 1, 0], [1, 0, 0, 0], [1, 0, 1, 1]], [[1, 0, 0, 0], [1, 0, 1, 1], [1, 0, 0, 1]]]})
+        # histories on ONE object: statistic, in-place edit of the same array, statistic again (a memo keyed on the
+        # array object or dropped only by the `mat` setter is stale here); culling in place down to a fixed population
+        out.append({"kind": "history", "phased": True, "ploidy": 2, "nt": 4, "nv": 3, "dtypes": dict(nod), "dtypes2": dict(nod),
+                    "mat": [[[1, 0, 1], [1, 0, 0], [1, 1, 1], [1, 0, 1]], [[1, 0, 0], [1, 0, 1], [1, 1, 0], [1, 0, 1]]],
+                    "oseed": 1, "steps": [{"op": "edit", "cells": [[0, 1, 2, 1], [1, 0, 0, 0]]},
+                                          {"op": "editcol", "j": 1, "v": 1},
+                                          {"op": "remove_taxa", "idx": [0, 1, 2], "form": "list"},
+                                          {"op": "append_taxa", "rows": [[[0, 1, 1]], [[1, 1, 0]]]},
+                                          {"op": "setmat", "mat": [[[0, 0, 0], [1, 1, 1]], [[0, 0, 1], [1, 1, 1]]]}]})
+        out.append({"kind": "history", "phased": False, "ploidy": 4, "nt": 5, "nv": 3, "dtypes": dict(nod), "dtypes2": dict(nod),
+                    "mat": [[4, 0, 3], [4, 4, 0], [3, 1, 2], [4, 0, 4], [0, 2, 4]], "oseed": 2,
+                    "steps": [{"op": "select_taxa", "idx": [0, 1, 3], "form": "list"},
+                              {"op": "edit", "cells": [[1, 1, 0]]},
+                              {"op": "delete_taxa", "idx": [2], "form": "int"},
+                              {"op": "adjoin_taxa", "rows": [[1, 3, 4]]},
+                              {"op": "concat_self"}, {"op": "deepcopy"},
+                              {"op": "remove_taxa", "idx": [0, 1, 2, 3, 4], "form": "slice"}]})
+        out.append({"kind": "history", "phased": True, "ploidy": 3, "nt": 3, "nv": 2, "dtypes": dict(ints), "dtypes2": dict(nod),
+                    "mat": [[[1, 0], [0, 0], [1, 0]], [[0, 0], [0, 1], [0, 0]], [[0, 1], [0, 0], [0, 0]]], "oseed": 3,
+                    "steps": [{"op": "requery"}, {"op": "project"}, {"op": "edit", "cells": [[0, 0, 3]]},
+                              {"op": "reorder_taxa", "perm": [2, 0, 1]}]})
         # every size 1..400 with a fully fixed locus (quick); `exhaustive` extends it to 2000 (thorough)
         out.append({"kind": "sweep", "nmax": 400, "ploidies": [1, 2, 4]})
         # very large populations one copy off fixation: a flag computed with a tolerance (numpy.isclose, 1e-5)
         # instead of exact float equality only shows when 1/(ploidy*n) <= 1e-5
         out.append({"kind": "sweep", "nmax": 0, "ploidies": [],
-                    "big": [[2, 50000], [2, 65536], [2, 100000], [2, 200001], [1, 100001], [4, 25000], [4, 30001]]})
+                    "big": [[2, 50000], [2, 65536], [2, 100000], [2, 200001], [1, 100001], [4, 25000], [4, 30001],
+                            [2, 600001]]})
         return out
 
     def exhaustive(self, tier):
@@ -184,10 +313,113 @@ class C09(Prop):
             return None
         return [{"kind": "sweep", "nmax": 2000, "ploidies": [1, 2, 3, 4, 6]}]
 
+    def _block(self, rng, phased, k, nrows, nv):
+        """`nrows` new valid taxa"""
+        if phased:
+            return [[[rng.choice([0, 1]) for _ in range(nv)] for _ in range(nrows)] for _ in range(k)]
+        return [[rng.choice([0, k, rng.randint(0, k)]) for _ in range(nv)] for _ in range(nrows)]
+
+    def _history(self, rng, h=None):
+        """`h` = running number of the history in this run: the first 2 x len(HIST_DERIVE) histories start with a fixed
+        copy-on-manipulation method each, once on an unphased tetra-/hexaploid and once on a phased non-diploid object
+        (a result that silently falls back to the default ploidy shows only there)"""
+        forced = None
+        phased = rng.random() < 0.55
+        k = rng.choice([1, 2, 2, 3, 4]) if phased else rng.choice([1, 2, 2, 4, 4, 6])
+        if h is not None and h < 2 * len(HIST_DERIVE):
+            forced = HIST_DERIVE[h % len(HIST_DERIVE)]
+            phased = forced == "project" or h >= len(HIST_DERIVE)
+            k = rng.choice([1, 3, 4]) if phased else rng.choice([4, 6])
+        nt = rng.choice([2, 3, 4, 5, 6, 8, rng.choice([50, 51, 99, 104])])
+        nv = rng.choice([2, 3, 4])
+        pats = [rng.choice(["one", "zero", "one_off", "zero_off", "half", "het", "rand", "rand", "notop"]) for _ in range(nv)]
+        base = self._case(rng, nt, phased, k, pats, plain=True)
+        case = {"kind": "history", "phased": phased, "ploidy": k, "nt": nt, "nv": nv, "mat": base["mat"],
+                "dtypes": self._dtypes(rng, 10 ** 4), "dtypes2": self._dtypes(rng, 10 ** 4, plain=rng.random() < 0.5),
+                "layout": rng.choice(LAYOUTS), "oseed": rng.randrange(1 << 30)}
+        if rng.random() < 0.3:
+            case["meta"] = self._meta(rng, nt, nv)
+        steps = []
+        cur_phased = phased
+        for sno in range(rng.choice([2, 3, 3, 4, 5])):
+            op = rng.choice(HIST_INPLACE + HIST_INPLACE + HIST_DERIVE)
+            if forced and sno == 0:
+                op = forced
+            if op == "project" and not cur_phased:
+                op = "copy"
+            if op in ("remove_taxa", "delete_taxa") and nt < 2:
+                op = "edit"
+            if op in ("remove_vrnt", "delete_vrnt") and nv < 2:
+                op = "requery"
+            st = {"op": op}
+            if op == "edit":
+                cells = []
+                for _ in range(rng.choice([1, 1, 2, 4])):
+                    i, j = rng.randrange(nt), rng.randrange(nv)
+                    cells.append([rng.randrange(k), i, j, rng.choice([0, 1])] if cur_phased
+                                 else [i, j, rng.choice([0, k, rng.randint(0, k)])])
+                st["cells"] = cells
+            elif op == "editcol":               # a whole locus becomes fixed: the flags must flip
+                st["j"], st["v"] = rng.randrange(nv), (rng.choice([0, 1]) if cur_phased else rng.choice([0, k]))
+            elif op == "setmat":
+                st["mat"] = self._block(rng, cur_phased, k, nt, nv)
+            elif op in ("remove_taxa", "delete_taxa"):
+                m = rng.randint(1, max(1, min(nt - 1, rng.choice([1, 2, nt - 1]))))
+                form = rng.choice(["list", "array:int8", "array:uint16", "neg", "slice", "int"])
+                if form == "slice":
+                    lo = rng.randrange(nt - m + 1)
+                    idx = list(range(lo, lo + m))
+                elif form == "int":
+                    idx = [rng.randrange(nt)]
+                else:
+                    idx = sorted(rng.sample(range(nt), m))
+                st["idx"], st["form"] = idx, form
+                nt -= len(idx)
+            elif op == "select_taxa":
+                m = rng.choice([1, 2, 3, nt])
+                idx = [rng.randrange(nt) for _ in range(m)]
+                st["idx"], st["form"] = idx, rng.choice(["list", "array:int8", "array:int64", "neg"])
+                nt = m
+            elif op in ("append_taxa", "adjoin_taxa"):
+                m = rng.choice([1, 1, 2])
+                st["rows"] = self._block(rng, cur_phased, k, m, nv)
+                nt += m
+            elif op in ("incorp_taxa", "insert_taxa"):
+                m = rng.choice([1, 2])
+                st["rows"], st["pos"] = self._block(rng, cur_phased, k, m, nv), rng.randrange(nt + 1)
+                nt += m
+            elif op == "reorder_taxa":
+                perm = list(range(nt))
+                rng.shuffle(perm)
+                st["perm"] = perm
+            elif op in ("remove_vrnt", "delete_vrnt"):
+                idx = sorted(rng.sample(range(nv), rng.randint(1, nv - 1)))
+                st["idx"], st["form"] = idx, rng.choice(["list", "array:int8", "neg"])
+                nv -= len(idx)
+            elif op == "select_vrnt":
+                m = rng.choice([1, 2, nv])
+                st["idx"], st["form"] = [rng.randrange(nv) for _ in range(m)], rng.choice(["list", "array:int16", "neg"])
+                nv = m
+            elif op == "concat_self":
+                if nt > 60:
+                    st = {"op": "requery"}
+                else:
+                    nt *= 2
+            elif op == "project":
+                cur_phased = False
+            steps.append(st)
+        case["steps"] = steps
+        return case
+
     def generate(self, rng, n, tier):
         out = []
         pats_all = ["one", "zero", "one_off", "zero_off", "half", "het", "rand", "rand"]
+        nhist = 0
         for i in range(n):
+            if i >= len(BOUNDARY_N) and i % 5 == 4:
+                out.append(self._history(rng, nhist))
+                nhist += 1
+                continue
             if i < len(BOUNDARY_N):
                 nt = BOUNDARY_N[i]                       # every boundary size in every run
             else:
@@ -202,26 +434,64 @@ class C09(Prop):
             k = rng.choice([1, 2, 2, 2, 3, 4]) if phased else rng.choice([1, 2, 2, 2, 3, 4, 6])
             nv = rng.choice([1, 2, 3, 3, 4, 5]) if nt <= 60 else rng.choice([2, 3, 4])
             pats = [rng.choice(pats_all) for _ in range(nv)]
-            if nv >= 2:                                   # a fixed-1 and a fixed-0 locus in every matrix
+            shape = rng.random()
+            if i >= len(BOUNDARY_N) and shape < 0.12:      # nobody homozygous for allele 1 at ANY locus
+                pats = [rng.choice(["notop", "notop", "zero", "zero_off"]) for _ in range(nv)]
+            elif i >= len(BOUNDARY_N) and shape < 0.16:    # the all-zero / all-one population
+                pats = [rng.choice(["zero", "one"])] * nv
+            elif nv >= 2:                                 # a fixed-1 and a fixed-0 locus in every other matrix
                 a, b = rng.sample(range(nv), 2)
                 pats[a], pats[b] = "one", "zero"
             out.append(self._case(rng, nt, phased, k, pats))
         return out
 
     # ------------------------------------------------------------------ implementation
-    def _query(self, obj, case):
-        res, dts = {}, {}
-        for s in STATS:
-            d = _dt(case["dtypes"].get(s))
-            r = getattr(obj, s)(d) if d is not None else getattr(obj, s)()
-            a = numpy.asarray(r)
-            dts[s] = str(a.dtype)
-            res[s] = _flags(a) if KIND_OF[s] == "flag" else canon.enc(a)
-        for key, f in FMTS:
-            a = obj.mat_asformat(f)
-            dts[key] = str(a.dtype)
-            res[key] = canon.enc(a)
+    @staticmethod
+    def _order(seed, rnd):
+        names = list(STATS) + [k for k, _ in FMTS]
+        if seed is None:
+            return names
+        import random as _random
+        _random.Random(seed * 2 + rnd).shuffle(names)
+        return names
+
+    def _query(self, obj, dtypes, order=None, keep=None):
+        """call every statistic (in the given order) with its dtype argument; `keep` collects the returned arrays"""
+        res, dts, raw = {}, {}, ([] if keep is None else keep)
+        fm = dict(FMTS)
+        for s in (order or (list(STATS) + [k for k, _ in FMTS])):
+            if s in fm:
+                a = obj.mat_asformat(fm[s])
+                dts[s] = str(a.dtype)
+                res[s] = canon.enc(a)
+            else:
+                d = _dt(dtypes.get(s))
+                r = getattr(obj, s)(d) if d is not None else getattr(obj, s)()
+                a = numpy.asarray(r)
+                dts[s] = str(a.dtype)
+                res[s] = _flags(a) if KIND_OF[s] == "flag" else canon.enc(a)
+                a = r
+            raw.append(a)
         return res, dts
+
+    def _build(self, case, mat=None, phased=None):
+        ug, pg, gt = _mods()
+        phased = (case["kind"] == "phased" or case.get("phased")) if phased is None else phased
+        k = case["ploidy"]
+        a = numpy.array(case["mat"] if mat is None else mat, dtype="int8")
+        a = a.reshape((k, -1, case["nv"]) if phased else (-1, case["nv"])) if mat is None else a
+        a = _layout(a, case.get("layout", "C"))
+        kw = {}
+        meta = case.get("meta")
+        if meta:
+            kw = {"taxa": numpy.array(meta["taxa"], dtype=object), "taxa_grp": numpy.array(meta["taxa_grp"], dtype="int64"),
+                  "vrnt_chrgrp": numpy.array(meta["vrnt_chrgrp"], dtype="int64"),
+                  "vrnt_phypos": numpy.array(meta["vrnt_phypos"], dtype="int64"),
+                  "vrnt_name": numpy.array(meta["vrnt_name"], dtype=object),
+                  "vrnt_mask": numpy.array(meta["vrnt_mask"], dtype=bool)}
+        if phased:
+            return pg.DensePhasedGenotypeMatrix(a, **kw)
+        return ug.DenseGenotypeMatrix(a, ploidy=k, **kw)
 
     def _sweep(self, case):
         """boundary clause for EVERY size up to nmax: a locus fixed at 1, one fixed at 0, one with a single
@@ -276,39 +546,217 @@ class C09(Prop):
                       and mf[0] == 0.0 and mf[1] == 0.0 and 0.0 < mf[2] <= 0.5 and abs(mf[2] - 1 / m) <= 1e-12
                       and mf[3] == 1 / m
                       and p32[0] == 1.0 and p32[1] == 0.0 and 0.0 < p32[2] < 1.0 and 0.0 < p32[3] < 1.0)
+                # counts of a population this large: an accumulator narrower than the count wraps around
+                ac, gc = o.acount(), o.gtcount()
+                ok = (ok and [int(x) for x in ac] == [m, 0, m - 1, 1]
+                      and [int(x) for x in gc[:, 0]] == [0] * k + [n] and [int(x) for x in gc[:, 1]] == [n] + [0] * k
+                      and [int(x) for x in gc[:, 2]] == [0] * (k - 1) + [1, n - 1]
+                      and [int(x) for x in gc[:, 3]] == [n - 1, 1] + [0] * (k - 1)
+                      and int(numpy.asarray(o.tacount()).sum()) == 2 * m and float(o.tafreq().max()) == 1.0)
                 if not ok:
-                    bad.append([who, k, n, canon.enc(p), [bool(x) for x in fx], [bool(x) for x in po]])
+                    bad.append([who, k, n, canon.enc(p), [bool(x) for x in fx], [bool(x) for x in po],
+                                [int(x) for x in ac]])
         return {"bad": bad[:20], "nbad": len(bad)}
+
+    @staticmethod
+    def _idx(st):
+        """the index argument in the requested form"""
+        idx, form = st["idx"], st.get("form", "list")
+        if form == "int":
+            return int(idx[0])
+        if form == "slice":
+            return slice(idx[0], idx[-1] + 1)
+        if form.startswith("array:"):
+            return numpy.array(idx, dtype=form[6:])
+        return list(idx)
+
+    def _apply(self, obj, ref, st, phased, meta, fresh):
+        """one history step on the object and on the numpy reference `ref` of its matrix.
+        -> (object to continue with, reference, phased?, object left behind or None)"""
+        ug, pg, gt = _mods()
+        op = st["op"]
+        tax = 1 if phased else 0
+        vax = 2 if phased else 1
+
+        def labels(m):
+            if not meta:
+                return {}
+            return {"taxa": numpy.array([f"new{next(fresh)}" for _ in range(m)], dtype=object),
+                    "taxa_grp": numpy.array([9] * m, dtype="int64")}
+        if op == "requery":
+            return obj, ref, phased, None
+        if op == "edit":
+            for c in st["cells"]:
+                obj.mat[tuple(c[:-1])] = c[-1]            # the SAME array object, edited in place
+                ref[tuple(c[:-1])] = c[-1]
+            return obj, ref, phased, None
+        if op == "editcol":
+            obj.mat[..., st["j"]] = st["v"]
+            ref[..., st["j"]] = st["v"]
+            return obj, ref, phased, None
+        if op == "setmat":
+            new = numpy.array(st["mat"], dtype="int8")
+            obj.mat = new.copy()
+            return obj, new, phased, None
+        if op in ("remove_taxa", "delete_taxa", "remove_vrnt", "delete_vrnt"):
+            ax = tax if op.endswith("taxa") else vax
+            nax = ref.shape[ax]
+            arg = self._idx(st)
+            if st.get("form") == "neg":
+                arg = [i - nax for i in st["idx"]]
+            ref2 = numpy.delete(ref, st["idx"], axis=ax)
+            if op.startswith("remove"):
+                getattr(obj, op)(arg)
+                return obj, ref2, phased, None
+            return getattr(obj, op)(arg), ref2, phased, obj
+        if op in ("select_taxa", "select_vrnt"):
+            ax = tax if op.endswith("taxa") else vax
+            nax = ref.shape[ax]
+            arg = self._idx(st)
+            if st.get("form") == "neg":
+                arg = [i - nax for i in st["idx"]]
+            return getattr(obj, op)(arg), numpy.take(ref, st["idx"], axis=ax), phased, obj
+        if op in ("append_taxa", "adjoin_taxa"):
+            rows = numpy.array(st["rows"], dtype="int8")
+            ref2 = numpy.concatenate([ref, rows], axis=tax)
+            if op == "append_taxa":
+                obj.append_taxa(rows, **labels(rows.shape[tax]))
+                return obj, ref2, phased, None
+            return obj.adjoin_taxa(rows, **labels(rows.shape[tax])), ref2, phased, obj
+        if op in ("incorp_taxa", "insert_taxa"):
+            rows = numpy.array(st["rows"], dtype="int8")
+            n_ = ref.shape[tax]
+            ref2 = numpy.concatenate([numpy.take(ref, range(st["pos"]), axis=tax), rows,
+                                      numpy.take(ref, range(st["pos"], n_), axis=tax)], axis=tax)
+            if op == "incorp_taxa":
+                obj.incorp_taxa(st["pos"], rows, **labels(rows.shape[tax]))
+                return obj, ref2, phased, None
+            return obj.insert_taxa(st["pos"], rows, **labels(rows.shape[tax])), ref2, phased, obj
+        if op == "reorder_taxa":
+            obj.reorder_taxa(numpy.array(st["perm"]))
+            return obj, numpy.take(ref, st["perm"], axis=tax), phased, None
+        if op == "concat_self":
+            return type(obj).concat_taxa([obj, obj.copy()]), numpy.concatenate([ref, ref], axis=tax), phased, obj
+        if op == "copy":
+            return obj.copy(), ref.copy(), phased, obj
+        if op == "deepcopy":
+            return obj.deepcopy(), ref.copy(), phased, obj
+        if op == "project":
+            return gt.DenseUnphasedGenotyping().genotype(obj), ref.sum(0).astype("int8"), False, obj
+        if op == "hdf5":                                   # the factory: written to a file and read back
+            import os
+            import tempfile
+            d = tempfile.mkdtemp(prefix="c09_")
+            path = os.path.join(d, "g.h5")
+            try:
+                obj.to_hdf5(path)
+                new = type(obj).from_hdf5(path)
+            finally:
+                if os.path.exists(path):
+                    os.remove(path)
+                os.rmdir(d)
+            return new, ref.copy(), phased, obj
+        raise ValueError(op)
+
+    def _checkpoint(self, obj, ref, phased, case, label, cp_no):
+        """all statistics, twice, judged later against the raw calls the object holds NOW.  Between the two rounds every
+        array the first round returned is overwritten with zeros (a valid call): what a caller does with a result must
+        not change later answers (a memo handed out by reference would)."""
+        k = case["ploidy"]
+        valid = lambda a: bool(((a >= 0) & (a <= (1 if phased else k))).all())
+        before = numpy.array(obj.mat, copy=True)
+        seed = case.get("oseed")
+        kept = []
+        r1, d1 = self._query(obj, case["dtypes"], self._order(seed, 2 * cp_no), keep=kept)
+        after1 = numpy.array(obj.mat, copy=True)
+        for a in kept:
+            if isinstance(a, numpy.ndarray) and a.ndim > 0 and a.flags.writeable:
+                a[...] = 0
+        mid = numpy.array(obj.mat, copy=True)
+        r2, d2 = self._query(obj, case.get("dtypes2", case["dtypes"]), self._order(seed, 2 * cp_no + 1))
+        after = numpy.array(obj.mat, copy=True)
+        same = lambda x, y: x.shape == y.shape and bool((x == y).all())
+        return {"label": label, "phased": bool(phased), "ploidy": k,
+                "nt": int(before.shape[1 if phased else 0]), "nv": int(before.shape[-1]),
+                "mat1": canon.enc(before), "mat": canon.enc(mid), "r1": r1, "r1_dtypes": d1, "r2": r2, "r2_dtypes": d2,
+                "obj_ploidy": int(obj.ploidy), "obj_class": type(obj).__name__,
+                "mat_ok": ref is None or same(before, ref),
+                # a statistic that edits the genotype data is a failure of the statistic; a result that aliases the
+                # matrix (so that the caller's edit leaks into it) is recorded as a broken correspondence only
+                "stat_readonly": same(before, after1) and same(mid, after) and valid(after1) and valid(after),
+                "result_aliases_matrix": not same(after1, mid)}
+
+    def _run_history(self, case):
+        import itertools
+        phased = case["phased"]
+        obj = self._build(case)
+        ref = numpy.array(obj.mat, copy=True)
+        fresh = itertools.count()
+        cps = [self._checkpoint(obj, ref, phased, case, "start", 0)]
+        left = []
+        for n, st in enumerate(case["steps"]):
+            obj, ref, phased, old = self._apply(obj, ref, st, phased, case.get("meta"), fresh)
+            if old is not None:
+                left.append((old, cps[-1]["phased"], f"left behind by step {n} ({st['op']})", numpy.array(cps[-1]["mat"], dtype="int8")))
+            cps.append(self._checkpoint(obj, ref, phased, case, f"after step {n} ({st['op']})", n + 1))
+        for m, (old, ph, label, oldref) in enumerate(left[-2:]):
+            # an object a copy-on-manipulation method was called on must still answer for its own, unchanged matrix
+            cps.append(self._checkpoint(old, oldref, ph, case, label, len(case["steps"]) + 1 + m))
+        return {"cps": cps}
 
     def run_impl(self, case):
         ug, pg, gt = _mods()
         obs = {}
         if case["kind"] == "sweep":
             return self._sweep(case)
+        if case["kind"] == "history":
+            return self._run_history(case)
+        order = self._order(case.get("oseed"), 0)
         if case["kind"] == "phased":
-            mat = numpy.array(case["mat"], dtype="int8").reshape(case["ploidy"], case["nt"], case["nv"])
-            P = pg.DensePhasedGenotypeMatrix(mat)
+            P = self._build(case)
             U = gt.DenseUnphasedGenotyping().genotype(P)
-            obs["P"], obs["P_dtypes"] = self._query(P, case)
-            obs["U"], obs["U_dtypes"] = self._query(U, case)
+            obs["P"], obs["P_dtypes"] = self._query(P, case["dtypes"], order)
+            obs["U"], obs["U_dtypes"] = self._query(U, case["dtypes"], order)
             obs["U_ploidy"] = int(U.ploidy)
             obs["U_class"] = type(U).__name__
+            obs["U_meta_ok"] = all(C09._same(getattr(U, a), getattr(P, a)) for a in
+                                   ("taxa", "taxa_grp", "vrnt_chrgrp", "vrnt_phypos", "vrnt_name", "vrnt_mask"))
         else:
-            mat = numpy.array(case["mat"], dtype="int8").reshape(case["nt"], case["nv"])
-            U = ug.DenseGenotypeMatrix(mat, ploidy=case["ploidy"])
-            obs["U"], obs["U_dtypes"] = self._query(U, case)
+            U = self._build(case)
+            obs["U"], obs["U_dtypes"] = self._query(U, case["dtypes"], order)
         return obs
 
+    @staticmethod
+    def _same(a, b):
+        if a is None or b is None:
+            return a is None and b is None
+        return len(a) == len(b) and all(x == y for x, y in zip(a, b))
+
     # ------------------------------------------------------------------ model requests
+    @staticmethod
+    def _intcast(dtypes):
+        return [s for s in ("tafreq", "afreq", "maf", "meh", "gtfreq") if _is_int(dtypes.get(s), s)]
+
+    def _spec_req(self, base, dtypes, U=None, P=None):
+        tol = {s: canon.enc(_tol(dtypes, s)) for s in ("tafreq", "afreq", "maf", "meh", "gtfreq")}
+        tol["fM1m1"] = canon.enc(TOL["float64"])
+        return dict(base, op="c09.spec", tol=tol, intcast=self._intcast(dtypes), U=U, P=P)
+
     def requests(self, case, obs):
         if case["kind"] == "sweep":
             return []
+        if case["kind"] == "history":
+            reqs = []
+            for cp in obs["cps"]:
+                base = {"phased": cp["phased"], "nt": cp["nt"], "nv": cp["nv"], "ploidy": cp["ploidy"], "mat": cp["mat"]}
+                who = "P" if cp["phased"] else "U"
+                reqs.append(dict(base, op="c09.stats"))
+                reqs.append(self._spec_req(dict(base, mat=cp["mat1"]), case["dtypes"], **{who: cp["r1"]}))
+                reqs.append(self._spec_req(base, case.get("dtypes2", case["dtypes"]), **{who: cp["r2"]}))
+            return reqs
         base = {"phased": case["kind"] == "phased", "nt": case["nt"], "nv": case["nv"],
                 "ploidy": case["ploidy"], "mat": case["mat"]}
-        tol = {s: canon.enc(_tol(case, s)) for s in ("tafreq", "afreq", "maf", "meh", "gtfreq")}
-        tol["fM1m1"] = canon.enc(TOL["float64"])
-        spec = dict(base, op="c09.spec", tol=tol, U=obs["U"], P=obs.get("P"))
-        return [dict(base, op="c09.stats"), spec]
+        return [dict(base, op="c09.stats"), self._spec_req(base, case["dtypes"], U=obs["U"], P=obs.get("P"))]
 
     @staticmethod
     def _cmp(stat, model, impl, tol):
@@ -330,11 +778,44 @@ class C09(Prop):
             return one(a, b)
         return walk(model, impl)
 
+    def _corr_one(self, who, model, m64, out, out_dt, dtypes):
+        """differences between the model's outputs and the implementation's for one object; dtype clause"""
+        bad, dt_bad = [], []
+        for s in list(STATS) + [k for k, _ in FMTS]:
+            tol = _tol(dtypes, s) if s in STATS else TOL["float64"]
+            if s in STATS and KIND_OF[s] == "freq" and _is_int(dtypes.get(s), s):
+                # integer dtype: the truncation of the binary64 value, exactly (meh: of a value within rounding)
+                if s == "meh":
+                    w = canon.dec(model[s])
+                    ok = canon.dec(out[s]) in {Fraction(int(w)), Fraction(int(w - tol)), Fraction(int(w + tol))}
+                else:
+                    ok = m64[s + "_int"] == out[s]
+                if not ok:
+                    bad.append(f"{who}.{s}:integer cast")
+                continue
+            if not self._cmp(s, model[s], out[s], tol):
+                bad.append(f"{who}.{s}")
+            # float64 outputs: bit-exact against the IEEE rounding model (Binary64.roundBinary64); float32 / float16
+            # outputs: against the cast model (BinaryFloat.roundBin 23 / 10 of the binary64 value)
+            if s in ("afreq", "tafreq", "gtfreq", "maf"):
+                dn = _dtname(dtypes.get(s), s)
+                if dn == "float64" and m64[s] != out[s]:
+                    bad.append(f"{who}.{s}:not bit-exact with roundBinary64")
+                if dn in ("float32", "float16") and m64[f"{s}_f{dn[5:]}"] != out[s]:
+                    bad.append(f"{who}.{s}:not bit-exact with the {dn} cast model")
+        for s in STATS:
+            want = _dtname(dtypes.get(s), s)
+            if out_dt[s] != want:
+                # a REQUESTED dtype is part of the property; the dtype returned when none is requested is only what
+                # the code does today (correspondence)
+                (dt_bad if dtypes.get(s) is not None else bad).append(f"{who}.{s}:dtype {out_dt[s]}!={want}")
+        return bad, dt_bad
+
     def judge(self, case, obs, answers):
         if case["kind"] == "sweep":
             ok = obs["nbad"] == 0
             return {"corr": ok, "spec": ok, "nontrivial": True,
-                    "detail": f"spec_fail=[{'' if ok else 'boundary clause (afreq exactly 0/1, afixed, apoly) at sizes'}] "
+                    "detail": f"spec_fail=[{'' if ok else 'boundary clause (afreq exactly 0/1, afixed, apoly, counts) at sizes'}] "
                               f"sweep 1..{case['nmax']} ploidies={case['ploidies']} big={case.get('big', [])} "
                               f"failing={obs['bad'][:6]} count={obs['nbad']}"}
         for a in answers:
@@ -342,31 +823,52 @@ class C09(Prop):
                 # a flag array that is not 0/1, or a malformed output, is an implementation failure
                 return {"corr": False, "spec": False, "nontrivial": True,
                         "detail": "driver rejected the implementation's output: " + a["err"][:300]}
+        if case["kind"] == "history":
+            bad, dt_bad, sfail = [], [], []
+            nontriv = False
+            for n, cp in enumerate(obs["cps"]):
+                model, s1, s2 = (a["ok"] for a in answers[3 * n:3 * n + 3])
+                if not model["valid"]:
+                    if not cp["stat_readonly"]:
+                        sfail.append(f"{cp['label']}: a read-only statistic left invalid calls in the genotype matrix")
+                        continue
+                    raise RuntimeError("generator produced an invalid history (raw calls after a step)")
+                who = "P" if cp["phased"] else "U"
+                for rnd, sp, dts in (("r1", s1, case["dtypes"]), ("r2", s2, case.get("dtypes2", case["dtypes"]))):
+                    if rnd == "r2" or cp["mat1"] == cp["mat"]:       # the model was run on the matrix of the second round
+                        b, d = self._corr_one(f"{cp['label']}/{rnd}/{who}", model[who], model[who + "64"], cp[rnd],
+                                              cp[rnd + "_dtypes"], dts)
+                        bad += b
+                        dt_bad += d
+                    if not sp["ok"]:
+                        sfail.append(f"{cp['label']}/{'first' if rnd == 'r1' else 'second'} query: {sp['detail']}")
+                if not cp["mat_ok"]:
+                    bad.append(f"{cp['label']}: matrix differs from the numpy reference of the step")
+                if not cp["stat_readonly"]:
+                    sfail.append(f"{cp['label']}: a read-only statistic changed the genotype matrix")
+                if cp["result_aliases_matrix"]:
+                    bad.append(f"{cp['label']}: a returned array aliases the genotype matrix")
+                want_cls = "DensePhasedGenotypeMatrix" if cp["phased"] else "DenseGenotypeMatrix"
+                if cp["obj_ploidy"] != cp["ploidy"] or cp["obj_class"] != want_cls:
+                    bad.append(f"{cp['label']}: object reports ploidy {cp['obj_ploidy']} / class {cp['obj_class']}")
+                fx = cp["r2"]["afixed"]
+                nontriv = nontriv or (cp["nt"] >= 2 and any(fx) and not all(fx))
+            detail = (f"spec_fail=[{'; '.join(sfail[:4])}] dtype_fail={dt_bad[:4]} model_vs_impl_diff={bad[:6]} "
+                      f"history ops={[s['op'] for s in case['steps']]} phased={case['phased']} ploidy={case['ploidy']}")
+            return {"corr": not bad, "spec": not sfail and not dt_bad, "nontrivial": bool(nontriv), "detail": detail}
         model, spec = answers[0]["ok"], answers[1]["ok"]
         if not model["valid"]:
             raise RuntimeError("generator produced an invalid case")
-        bad = []
+        bad, dt_bad = [], []
         for who in ("P", "U"):
             if who not in obs:
                 continue
-            for s in list(STATS) + [k for k, _ in FMTS]:
-                tol = _tol(case, s) if s in STATS else TOL["float64"]
-                if not self._cmp(s, model[who][s], obs[who][s], tol):
-                    bad.append(f"{who}.{s}")
-                # float64 outputs: bit-exact against the IEEE rounding model (Binary64.roundBinary64)
-                if s in ("afreq", "tafreq", "gtfreq", "maf") and _dtname(case["dtypes"].get(s), s) == "float64":
-                    if model[who + "64"][s] != obs[who][s]:
-                        bad.append(f"{who}.{s}:not bit-exact with roundBinary64")
+            b, d = self._corr_one(who, model[who], model[who + "64"], obs[who], obs[who + "_dtypes"], case["dtypes"])
+            bad += b
+            dt_bad += d
+        if not obs.get("U_meta_ok", True):
+            bad.append("projection: taxa / variant metadata differ from the phased matrix'")
         corr = not bad
-        # dtype clause of the Spec (checked here: dtypes are not part of the numeric canonical form)
-        dt_bad = []
-        for who in ("P", "U"):
-            if who + "_dtypes" not in obs:
-                continue
-            for s in STATS:
-                want = _dtname(case["dtypes"].get(s), s)
-                if obs[who + "_dtypes"][s] != want:
-                    dt_bad.append(f"{who}.{s}:{obs[who + '_dtypes'][s]}!={want}")
         proj_ok = True
         if case["kind"] == "phased":
             proj_ok = obs["U_ploidy"] == case["ploidy"] and obs["U_class"] == "DenseGenotypeMatrix"
@@ -374,13 +876,15 @@ class C09(Prop):
         ref = obs.get("P", obs["U"])
         nontriv = case["nt"] >= 2 and any(ref["afixed"]) and not all(ref["afixed"])
         detail = (f"spec_fail=[{spec['detail']}] dtype_fail={dt_bad} projection_ok={proj_ok} "
-                  f"model_vs_impl_diff={bad[:6]} nt={case['nt']} ploidy={case['ploidy']} "
+                  f"model_vs_impl_diff={bad[:6]} nt={case['nt']} ploidy={case['ploidy']} layout={case.get('layout', 'C')} "
                   f"afreq_impl={ref['afreq'][:4]}")
         return {"corr": corr, "spec": spec_ok, "nontrivial": bool(nontriv), "detail": detail}
 
     def signature(self, case, obs, verdict):
         if case["kind"] == "sweep":
             return {"kind": "sweep"}
+        if case["kind"] == "history":
+            return {"kind": "history", "clauses": (verdict.get("detail", "").split("]")[0])[:200]}
         m = case["ploidy"] * case["nt"]
         return {"kind": case["kind"], "recip_inexact": (1.0 / m) * m != 1.0,
                 "clauses": (verdict.get("detail", "").split("]")[0])[:200]}
@@ -395,10 +899,27 @@ class C09(Prop):
             if isinstance(self._last_bad(case), int):
                 yield dict(case, nmax=self._last_bad(case))
             return
+        nod = {s: None for s in STATS}
+        if case["kind"] == "history":
+            # shorter histories (a suffix can only be dropped: later steps depend on the shapes earlier ones leave)
+            for m in range(len(case["steps"])):
+                yield dict(case, steps=case["steps"][:m])
+            if any(v is not None for v in list(case["dtypes"].values()) + list(case.get("dtypes2", {}).values())):
+                yield dict(case, dtypes=dict(nod), dtypes2=dict(nod))
+            if case.get("layout", "C") != "C":
+                yield dict(case, layout="C")
+            if case.get("meta"):
+                yield {k: v for k, v in case.items() if k != "meta"}
+            return
         nt, nv = case["nt"], case["nv"]
         phased = case["kind"] == "phased"
         if any(v is not None for v in case["dtypes"].values()):
-            yield dict(case, dtypes={s: None for s in STATS})
+            yield dict(case, dtypes=dict(nod))
+        if case.get("layout", "C") != "C":
+            yield dict(case, layout="C")
+        if case.get("meta"):
+            yield {k: v for k, v in case.items() if k != "meta"}
+        case = {k: v for k, v in case.items() if k != "meta"}       # labels would no longer fit a smaller matrix
         if nt > 1:
             if nt > 3:          # halve (either half)
                 h = nt // 2
@@ -559,7 +1080,141 @@ class C09(Prop):
         def genotype_first_phase(self, pgmat, miscout=None, **kw):
             return UG(mat=(pgmat.mat[0] * pgmat.ploidy).astype("int8"), ploidy=pgmat.ploidy)
 
+        # -- stateful / aliasing / layout / dtype / partial-structure classes (round 4)
+        def p_afreq_memo_identity(self, dtype=None):       # memo keyed on the array OBJECT: stale after mat[...] = x
+            memo = self.__dict__.get("_memo_id")
+            if memo is None or memo[0] is not self._mat:
+                memo = (self._mat, self._mat.sum((self.phase_axis, self.taxa_axis)) / (self.ploidy * self.ntaxa))
+                self.__dict__["_memo_id"] = memo
+            return cast(memo[1].copy(), dtype)
+
+        def make_setter_memo(cls, axes):
+            prop = cls.__dict__["mat"]
+
+            def fset(self, value):
+                prop.fset(self, value)
+                self.__dict__["_memo_tok"] = object()      # the memo is dropped by the `mat` setter only
+
+            def afreq(self, dtype=None):
+                memo = self.__dict__.get("_memo_set")
+                if memo is None or memo[0] is not self.__dict__.get("_memo_tok"):
+                    memo = (self.__dict__.get("_memo_tok"), self._mat.sum(axes(self)) / (self.ploidy * self.ntaxa))
+                    self.__dict__["_memo_set"] = memo
+                return cast(memo[1], dtype)                # ... and the memoised array itself is handed out
+            return property(prop.fget, fset, prop.fdel, prop.__doc__), afreq
+
+        pg_mat_memo, p_afreq_memo_setter = make_setter_memo(PG, lambda o: (o.phase_axis, o.taxa_axis))
+        ug_mat_memo, u_afreq_memo_setter = make_setter_memo(UG, lambda o: o.taxa_axis)
+
+        _p_fmt = PG.__dict__["mat_asformat"]
+
+        def p_fmt_diploid_fast_path(self, format):
+            if format == "{0,1,2}":
+                return self.mat[0] + self.mat[min(1, self.mat.shape[0] - 1)]      # 'diploid fast path'
+            return _p_fmt(self, format)
+
+        def afixed_passes_dtype(self, dtype=None):         # an integer dtype then truncates the frequencies first
+            afreq = self.afreq(dtype)
+            return cast((afreq == 0.0) | (afreq == 1.0), dtype)
+
+        DTVM = UG.__mro__[1]
+        _u_select = UG.__dict__["select_taxa"]
+        _u_delete = UG.__dict__["delete_taxa"]
+
+        def u_select_drops_ploidy(self, indices, **kw):
+            if type(self) is UG:
+                return DTVM.select_taxa(self, indices=indices, **kw)
+            return _u_select(self, indices, **kw)
+
+        def u_copy_drops_ploidy(self):
+            out = UG(mat=self.mat.copy(), taxa=self.taxa, taxa_grp=self.taxa_grp, vrnt_chrgrp=self.vrnt_chrgrp,
+                     vrnt_phypos=self.vrnt_phypos, vrnt_name=self.vrnt_name, vrnt_mask=self.vrnt_mask)
+            return out
+
+        _genotype = GT.__dict__["genotype"]
+
+        def genotype_regroups(self, pgmat, miscout=None, **kw):
+            out = _genotype(self, pgmat, miscout, **kw)
+            if out.vrnt_chrgrp is not None:
+                out.group_vrnt()                           # lexsorts the variant axis
+            return out
+
+        def p_acount_assumes_c_order(self, dtype=None):
+            flat = self._mat.ravel(order="K")              # memory order, not index order
+            out = flat.reshape(self._mat.shape).sum((self.phase_axis, self.taxa_axis))
+            return cast(out, dtype)
+
+        def u_tacount_assumes_contiguous(self, dtype=None):
+            a = self._mat
+            buf = a if a.flags.c_contiguous else numpy.frombuffer(a.tobytes(order="A"), dtype=a.dtype).reshape(a.shape)
+            return buf.astype(int if dtype is None else dtype)
+
+        def u_acount_int16(self, dtype=None):
+            return cast(self._mat.sum(self.taxa_axis, dtype="int16"), "int64" if dtype is None else dtype)
+
+        def p_gtcount_int8_dosage(self, dtype=None):      # dosage summed in int8, class counts in int16
+            mat = self._mat.sum(self.phase_axis, dtype="int8")
+            out = numpy.empty((self.nphase + 1, self.nvrnt), dtype="int64")
+            for i in range(self.nphase + 1):
+                out[i] = (mat == i).sum(0, dtype="int16")
+            return cast(out, dtype)
+
+        def u_afreq_int_rounds(self, dtype=None):          # integer dtype: rounds to nearest instead of truncating
+            out = self._mat.sum(self.taxa_axis) / (self.ploidy * self.ntaxa)
+            if dtype is not None and numpy.issubdtype(numpy.dtype(dtype), numpy.integer):
+                out = numpy.rint(out)
+            return cast(out, dtype)
+
+        def p_meh_two(self, dtype=None):                   # 'expected heterozygosity is 2pq'
+            p = self.afreq()
+            return cast((p * (1.0 - p)).sum() * (2.0 / self.nvrnt), dtype)
+
+        def u_gtcount_classes_from_max(self, dtype=None):
+            ngt = max(self.nphase, int(self._mat.max(initial=0))) + 1
+            out = numpy.empty((ngt, self.nvrnt), dtype="int64")
+            for i in range(ngt):
+                out[i] = (self._mat == i).sum(self.taxa_axis)
+            return cast(out, dtype)
+
+        def u_apoly_needs_two_taxa(self, dtype=None):
+            p = self.afreq()
+            out = (p > 0.0) & (p < 1.0)
+            if self.ntaxa < 2:
+                out[:] = False
+            return cast(out, dtype)
+
+        def maf_in_place_on_cached(self, dtype=None):      # afreq memo + maf folding the memo in place
+            out = self.afreq(dtype)
+            mask = out > 0.5
+            out[mask] = 1.0 - out[mask]
+            return out
+
+        _u_from_hdf5 = UG.__dict__["from_hdf5"].__func__
+
+        def u_from_hdf5_default_ploidy(cls, filename, groupname=None):
+            out = _u_from_hdf5(cls, filename, groupname)
+            if cls is UG:
+                out._ploidy = 2                              # the reader forgets the stored ploidy
+            return out
+
         return [
+            ("unphased_from_hdf5_default_ploidy", lambda: patch((UG, "from_hdf5", classmethod(u_from_hdf5_default_ploidy)))),
+            ("phased_afreq_memo_keyed_on_array_identity", lambda: patch((PG, "afreq", p_afreq_memo_identity))),
+            ("phased_afreq_memo_dropped_by_setter_only", lambda: patch((PG, "afreq", p_afreq_memo_setter), (PG, "mat", pg_mat_memo))),
+            ("unphased_afreq_memo_dropped_by_setter_only", lambda: patch((UG, "afreq", u_afreq_memo_setter), (UG, "mat", ug_mat_memo))),
+            ("phased_dosage_coding_diploid_fast_path", lambda: patch((PG, "mat_asformat", p_fmt_diploid_fast_path))),
+            ("afixed_passes_dtype_to_afreq", lambda: patch((UG, "afixed", afixed_passes_dtype))),
+            ("unphased_select_taxa_drops_ploidy", lambda: patch((UG, "select_taxa", u_select_drops_ploidy))),
+            ("unphased_copy_drops_ploidy", lambda: patch((UG, "copy", u_copy_drops_ploidy))),
+            ("projection_regroups_variants", lambda: patch((GT, "genotype", genotype_regroups))),
+            ("phased_acount_assumes_c_order", lambda: patch((PG, "acount", p_acount_assumes_c_order))),
+            ("unphased_tacount_assumes_contiguous_buffer", lambda: patch((UG, "tacount", u_tacount_assumes_contiguous))),
+            ("unphased_acount_int16_accumulator", lambda: patch((UG, "acount", u_acount_int16))),
+            ("phased_gtcount_int16_class_counts", lambda: patch((PG, "gtcount", p_gtcount_int8_dosage))),
+            ("unphased_afreq_integer_dtype_rounds", lambda: patch((UG, "afreq", u_afreq_int_rounds))),
+            ("phased_meh_factor_two", lambda: patch((PG, "meh", p_meh_two))),
+            ("unphased_gtcount_classes_from_max", lambda: patch((UG, "gtcount", u_gtcount_classes_from_max))),
+            ("unphased_apoly_needs_two_taxa", lambda: patch((UG, "apoly", u_apoly_needs_two_taxa))),
             ("afreq_reciprocal_form_D1", lambda: patch((UG, "afreq", u_afreq_recip), (PG, "afreq", p_afreq_recip))),
             ("afreq_reciprocal_form_unphased_only", lambda: patch((UG, "afreq", u_afreq_recip))),
             ("afreq_without_ploidy", lambda: patch((UG, "afreq", u_afreq_noploidy), (PG, "afreq", p_afreq_noploidy))),
